@@ -16,25 +16,4 @@ NOT_APPLICABLE = {
     "C47": "bech32 checksum arithmetic and string handling; no state or decision structure for a model (DESIGN.md 8)",
 }
 
-ENTRIES = {
-    "C17": {
-        "text": "TLC enumerates every set over 1..N (N=6 quick, 9 thorough) with every operation and argument of "
-                "spec/BlockRanges.tla; each generated transition is replayed on the real BlockRanges under three "
-                "embeddings (identity, top of u64) comparing result and canonical representation; random histories "
-                "of the real type at bases 0, 2^32, 2^63 and u64::MAX-200 are validated event by event by "
-                "Trace_BlockRanges. Exhaustive in the small scope, sampled beyond it.",
-        "design_ref": "7 C17",
-        "note": "Trusts TLC and the harness' embedding arithmetic; left_of/right_of are not exercised with argument 0 "
-                "(not a height). Partition is judged by the balanced-partition relation, not a fixed choice.",
-        "technique": "TLA+ spec + TLC exhaustive transition table replayed into Rust; TLC trace validation of recorded histories",
-    },
-    "C18": {
-        "text": "The decision table Admit/AdmitFlags of spec/Ranges.tla is evaluated by TLC for every stored set over "
-                "1..N and every candidate range over 0..N+1 (including invalid ones) and compared exactly with "
-                "check_insertion_constraints under three embeddings; TLC also checks the merge lemma AdmitLemma; "
-                "recorded random calls near range boundaries at large bases are validated by the trace spec.",
-        "design_ref": "7 C18",
-        "note": "Error variants are not compared (the property speaks of admitted / not admitted and the two flags).",
-        "technique": "TLA+ decision table enumerated by TLC, replayed into Rust; trace validation",
-    },
-}
+# Per-property entries live in the check modules (ENTRIES in checks/<x>.py).
